@@ -16,7 +16,8 @@ EXPLANATION = (
     "R7 visitor completeness: every field of every node that can contain a Reference, Expression or ValueType reaches an "
     "analyze call (reviewed exceptions: type annotations that are only filled in by the typer). Soundness of the pruning "
     "algorithm over all control-flow graphs is not decided."
-    " ADDED LATER: R8 who may write the scoper's state (scope stack, pruning tables, the constant-initialiser context).")
+    " ADDED LATER: R8 who may write the scoper's state (scope stack, pruning tables, the constant-initialiser context)."
+    " ROUND 9: R4-IDENTITY-BY-ID: the sets of the goto pruning are keyed by resolution id (collecting closure and membership test), not by name.")
 
 VR = "alpha::scoper::variable_references::"
 AN = VR + "Analyzer::"
